@@ -7,6 +7,8 @@
          filter_result_multiple
      antismash/detection/nrps_pks_domains/domain_identification.py : filter_nonterminal_docking_domains
    No proofs in this file.
+   Transcribes the code after the repairs F41 (merge: least start, greatest end), F42 (grouping loop
+   over hits[1:]) and F43 (both hmmer sorts by (protein_start, ranking_stats)).
 
    Numbers.  Floats never enter.  A bitscore s travels as the integer 2*s (the harness generates
    multiples of 0.5), an e-value as the integer e with float value e*1e-10 (strictly monotone), a
@@ -30,11 +32,13 @@ Definition hit_eqb (a b : hit) : bool :=
 (* HMMResult.__len__ *)
 Definition hlen (h : hit) : Z := en h - st h.
 
-(* HMMResult.merge (the assert on equal hit_id holds at both call sites: they test it first) *)
+(* HMMResult.merge (the assert on equal hit_id holds at both call sites: they test it first):
+   start = min of the starts, end = max of the ends *)
 Definition merge (a b : hit) : hit :=
-  if st a <? st b
-  then mkHit (prof a) (st a) (en b) (Z.min (ev a) (ev b)) (Z.max (sc a) (sc b))
-  else mkHit (prof a) (st b) (en a) (Z.min (ev a) (ev b)) (Z.max (sc a) (sc b)).
+  mkHit (prof a) (Z.min (st a) (st b)) (Z.max (en a) (en b)) (Z.min (ev a) (ev b)) (Z.max (sc a) (sc b)).
+(* the method itself, assert included *)
+Definition merge_checked (a b : hit) : res hit :=
+  if prof a =? prof b then Ok (merge a b) else Err E_Assert.
 
 (* a Python set of values: first occurrences *)
 Fixpoint mem {A} (eqb : A -> A -> bool) (x : A) (l : list A) : bool :=
@@ -186,7 +190,7 @@ Definition rank_lt (cut : Z -> Z) (a b : hhit) : bool :=
 
 Definition set_add (x : hhit) (s : list hhit) : list hhit := if mem hh_eqb x s then s else s ++ [x].
 
-(* the grouping loop: state = (finished groups, current, max_current) *)
+(* the grouping loop (`for hit in hits[1:]`): state = (finished groups, current, max_current) *)
 Definition group_step (limit : Z) (s : list (list hhit) * list hhit * Z) (h : hhit)
   : list (list hhit) * list hhit * Z :=
   let '(groups, current, maxc) := s in
@@ -196,8 +200,8 @@ Definition group_step (limit : Z) (s : list (list hhit) * list hhit * Z) (h : hh
 Definition hh_groups (limit : Z) (sorted : list hhit) : list (list hhit) :=
   match sorted with
   | [] => []
-  | h0 :: _ =>
-    let '(groups, current, _) := fold_left (group_step limit) sorted ([], [h0], h_en h0) in
+  | h0 :: rest =>
+    let '(groups, current, _) := fold_left (group_step limit) rest ([], [h0], h_en h0) in
     groups ++ [current]
   end.
 
@@ -210,7 +214,13 @@ Definition best_step (limit : Z) (best_of : list hhit) (h : hhit) : list hhit :=
 Definition best_of_group (limit : Z) (cut : Z -> Z) (g : list hhit) : list hhit :=
   fold_left (best_step limit) (sort_by (rank_lt cut) g) [].
 
-Definition hh_start_lt (a b : hhit) : bool := h_st a <? h_st b.
+(* both sorts: key (protein_start, ranking_stats(hit)), compared as Python compares tuples *)
+Definition hh_sort_lt (cut : Z -> Z) (a b : hhit) : bool :=
+  (h_st a <? h_st b) || ((h_st a =? h_st b) && rank_lt cut a b).
+
+(* cutoffs[hit.identifier] *)
+Definition cut_of (cutoffs : list (option Z)) : Z -> Z :=
+  fun i => match nth (Z.to_nat i) cutoffs None with Some c => c | None => 0 end.
 
 Definition hmmer_remove_overlapping (limit : Z) (cutoffs : list (option Z)) (hits : list hhit)
   : res (list hhit) :=
@@ -219,10 +229,10 @@ Definition hmmer_remove_overlapping (limit : Z) (cutoffs : list (option Z)) (hit
   | _ =>
     if forallb (fun h => match nth (Z.to_nat (h_id h)) cutoffs None with Some _ => true | None => false end) hits
     then
-      let cut := fun i => match nth (Z.to_nat i) cutoffs None with Some c => c | None => 0 end in
-      let sorted := sort_by hh_start_lt hits in
+      let cut := cut_of cutoffs in
+      let sorted := sort_by (hh_sort_lt cut) hits in
       let cleaned := flat_map (best_of_group limit cut) (hh_groups limit sorted) in
-      Ok (sort_by hh_start_lt cleaned)
+      Ok (sort_by (hh_sort_lt cut) cleaned)
     else Err E_Value                                     (* KeyError re-raised as ValueError *)
   end.
 
@@ -375,37 +385,19 @@ Definition from_input (inp : list hit) (h : hit) : bool :=
   existsb (fun a => (prof a =? prof h) && (sc a =? sc h)) inp &&
   existsb (fun a => (prof a =? prof h) && (ev a =? ev h)) inp.
 
-(* finding class "merge_truncates": some merge performed by the run does not span both operands
-   (the second operand is nested in the first, or both start at the same position) *)
-Definition spans (a b : hit) : bool :=
-  let m := merge a b in
-  (st m <=? Z.min (st a) (st b)) && (Z.max (en a) (en b) <=? en m).
-Fixpoint mn_trunc (L : Z -> Z) (cur : hit) (rest : list hit) : bool :=
-  match rest with
-  | [] => false
-  | d :: ds =>
-    if negb (prof d =? prof cur) then mn_trunc L d ds
-    else if 2 * (en d - st cur) <? 3 * L (prof d) then negb (spans cur d) || mn_trunc L (merge cur d) ds
-    else mn_trunc L d ds
+(* "the merge spans its fragments": h covers x = same profile and x lies inside h *)
+Definition covers (h x : hit) : bool := (prof h =? prof x) && (st h <=? st x) && (en x <=? en h).
+(* neighbour mode, one gene: every complete hit that survives the overlap pass lies inside a
+   returned hit of its profile (repaired finding class merge_truncates) *)
+Definition gene_coverage (L : Z -> Z) (l out : list hit) : bool :=
+  match canonical l with
+  | [] => true
+  | c :: t => forallb (fun x => negb (is_complete L x) || existsb (fun h => covers h x) out) (ro L c t)
   end.
-Fixpoint mcat_trunc (L : Z -> Z) (p : Z) (merged : hit) (rest : list hit) : bool :=
-  match rest with
-  | [] => false
-  | o :: os =>
-    if 2 * (en o - st merged) <? 3 * L p then negb (spans merged o) || mcat_trunc L p (merge merged o) os
-    else mcat_trunc L p o os
-  end.
-Definition gene_trunc (neighbour : bool) (L : Z -> Z) (l : list hit) : bool :=
-  let refined := canonical l in
-  if neighbour then
-    match refined with
-    | [] => false
-    | h :: t => match ro L h t with [] => false | h' :: t' => mn_trunc L h' t' end
-    end
-  else existsb (fun p => match category p refined with [] => false | c0 :: cs => mcat_trunc L p c0 cs end)
-               (profiles_of refined).
-Definition any_trunc (neighbour : bool) (t : ptable) (l : list (Z * hit)) : bool :=
-  existsb (fun g => gene_trunc neighbour (plen t) (hits_of g l)) (genes_of l).
+Definition out_of (g : Z) (out : list (Z * list hit)) : list hit :=
+  match find (fun gr => fst gr =? g) out with Some gr => snd gr | None => [] end.
+Definition coverage_all (L : Z -> Z) (l : list (Z * hit)) (out : list (Z * list hit)) : bool :=
+  forallb (fun g => gene_coverage L (hits_of g l) (out_of g out)) (genes_of l).
 
 (* ------------------------------------------------------------------ encoding *)
 Definition dHit : dec hit := fun l =>
@@ -442,8 +434,8 @@ Definition run_refine (neighbour : bool) (l : list Z) : list Z :=
   end.
 
 (* spec on an output: payload = table, input hits, then the (implementation's) result.
-   answer: [ok; sorted; provenance; pairwise margin] *)
-Definition run_refine_spec (l : list Z) : list Z :=
+   answer: [ok; sorted; provenance; pairwise margin; coverage (neighbour mode only)] *)
+Definition run_refine_spec (neighbour : bool) (l : list Z) : list Z :=
   match dPair (dList dPEntry) (dList dGHit) l with
   | Some ((t, hits), 0 :: r) =>
     match dList (dPair dZ (dList dHit)) r with
@@ -451,10 +443,11 @@ Definition run_refine_spec (l : list Z) : list Z :=
       let s := forallb (fun gr => sorted_by_start (snd gr)) out in
       let p := forallb (fun gr => forallb (from_input (hits_of (fst gr) hits)) (snd gr)) out in
       let m := forallb (fun gr => pairwise_margin (plen t) (snd gr)) out in
-      eBool (s && p && m) ++ eBool s ++ eBool p ++ eBool m
+      let c := if neighbour then coverage_all (plen t) hits out else true in
+      eBool (s && p && m && c) ++ eBool s ++ eBool p ++ eBool m ++ eBool c
     | _ => bad_input
     end
-  | Some (_, [1; _]) => [1; 1; 1; 1]
+  | Some (_, [1; _]) => [1; 1; 1; 1; 1]
   | _ => bad_input
   end.
 
@@ -463,8 +456,11 @@ Fixpoint pairwise_noconflict (limit : Z) (l : list hhit) : bool :=
   | [] => true
   | a :: t => forallb (fun b => negb (conflict limit a b)) t && pairwise_noconflict limit t
   end.
-Fixpoint hh_nodup (l : list hhit) : bool :=
-  match l with [] => true | a :: t => negb (mem hh_eqb a t) && hh_nodup t end.
+(* multiplicity: no hit is returned more often than it occurs in the input *)
+Fixpoint hcount (x : hhit) (l : list hhit) : Z :=
+  match l with [] => 0 | y :: t => (if hh_eqb x y then 1 else 0) + hcount x t end.
+Definition hh_nomult (inp out : list hhit) : bool :=
+  forallb (fun x => hcount x out <=? hcount x inp) out.
 
 Definition hh_ok (n : Z) (h : hhit) : bool :=
   (0 <=? h_id h) && (h_id h <? n) && (h_st h <? h_en h) && (0 <? h_sc h).
@@ -496,20 +492,30 @@ Definition run_C13 (fn : Z) (l : list Z) : list Z :=
          | Some (cds, []) => 0 :: eList (fun c => fst c :: eDIds (snd c)) (filter_docking cds)
          | _ => bad_input
          end
-  | 101 | 102 => run_refine_spec l
-  | 111 | 112 => (* finding class of an input of fn 1 / fn 2: [a merge of the run truncates] *)
-         match dPair (dList dPEntry) (dList dGHit) l with
-         | Some ((t, hits), []) =>
-           if table_ok t hits then eBool (any_trunc (fn =? 111) t hits) else bad_input
+  | 7 => (* HMMResult.merge itself *)
+         match dPair dHit dHit l with
+         | Some ((a, b), []) => eRes eHit (merge_checked a b)
          | _ => bad_input
          end
-  | 103 => (* payload of fn 3 followed by the result: [ok; no conflicting pair; no duplicate] *)
+  | 101 => run_refine_spec true l
+  | 102 => run_refine_spec false l
+  | 107 => (* payload of fn 7 followed by the result: [the merged hit spans both operands] *)
+         match dPair dHit dHit l with
+         | Some ((a, b), 0 :: r) =>
+           match dHit r with
+           | Some (m, []) => eBool (covers m a && covers m b)
+           | _ => bad_input
+           end
+         | Some (_, [1; _]) => [1]
+         | _ => bad_input
+         end
+  | 103 => (* payload of fn 3 followed by the result: [ok; no conflicting pair; multiplicity] *)
          match dPair dZ (dPair (dList (dOpt dZ)) (dList dHH)) l with
-         | Some ((limit, _), 0 :: r) =>
+         | Some ((limit, (_, hits)), 0 :: r) =>
            match dList dHH r with
            | Some (out, []) =>
              let c := pairwise_noconflict limit out in
-             let d := hh_nodup out in
+             let d := hh_nomult hits out in
              eBool (c && d) ++ eBool c ++ eBool d
            | _ => bad_input
            end
